@@ -250,10 +250,10 @@ pub fn property() -> Property {
         assumptions: vec!["hex strings: lower-case output of hex_str_from_words, upper-case Display; both cases accepted on input"],
         health: vec![("rt.mutations", "last-mutation-empty", 20), ("rt.serde", "zero-salt", 30)],
         subs: vec![
-            prop_sub("rt.predicate", 8_000, 300_000, |_| values::pred(), oracle_pred),
-            prop_sub("rt.mutations", 20_000, 800_000, |_| muts(), oracle_muts),
-            prop_sub("rt.convert_display", 15_000, 600_000, |_| conv_case(), oracle_convert),
-            prop_sub("rt.serde", 6_000, 250_000, |_| serde_case(), oracle_serde),
+            prop_sub("rt.predicate", 80_000, 640_000, |_| values::pred(), oracle_pred),
+            prop_sub("rt.mutations", 200_000, 1_600_000, |_| muts(), oracle_muts),
+            prop_sub("rt.convert_display", 150_000, 1_200_000, |_| conv_case(), oracle_convert),
+            prop_sub("rt.serde", 60_000, 480_000, |_| serde_case(), oracle_serde),
         ],
     }
 }
